@@ -76,6 +76,9 @@ type MRepo struct {
 	// deleted manifests that an index listed as a child when they were deleted, or when the index was: the
 	// server may keep serving them from its in-memory child list (same family as orphans, for absent manifests)
 	ghosts map[string]bool
+	// subject -> artifacts whose manifest was deleted after their blob had been removed through the blob endpoint:
+	// the server could not read the subject any more and may keep listing them (known defect, signatures only)
+	staleRef map[string]map[string]bool
 }
 
 type Model struct {
@@ -95,7 +98,7 @@ func newModel(k Knobs) *Model {
 func (m *Model) repo(name string) *MRepo {
 	r, ok := m.repos[name]
 	if !ok {
-		r = &MRepo{name: name, blobs: map[string]*MBlob{}, mans: map[string]*MMan{}, tags: map[string]string{}, blobDeleted: map[string]bool{}, orphans: map[string]string{}, respLost: map[string]bool{}, ghosts: map[string]bool{}}
+		r = &MRepo{name: name, blobs: map[string]*MBlob{}, mans: map[string]*MMan{}, tags: map[string]string{}, blobDeleted: map[string]bool{}, orphans: map[string]string{}, respLost: map[string]bool{}, ghosts: map[string]bool{}, staleRef: map[string]map[string]bool{}}
 		m.repos[name] = r
 	}
 	return r
@@ -137,6 +140,12 @@ func (m *Model) clone() *Model {
 		}
 		for d := range r.ghosts {
 			cr.ghosts[d] = true
+		}
+		for sj, m := range r.staleRef {
+			cr.staleRef[sj] = map[string]bool{}
+			for d := range m {
+				cr.staleRef[sj][d] = true
+			}
 		}
 		for d := range r.respLost {
 			cr.respLost[d] = true
@@ -316,6 +325,9 @@ func (m *Model) applyManifestPut(repo string, v manVerdict, body []byte, now tim
 	}
 	delete(r.orphans, v.digest)
 	delete(r.ghosts, v.digest)
+	for _, m := range r.staleRef {
+		delete(m, v.digest)
+	}
 	// an artifact pushed for a subject whose manifest was deleted (its blob is still there) joins the known family at once
 	if s := v.view.subject; s != "" {
 		if _, isMan := r.mans[s]; !isMan {
